@@ -887,6 +887,12 @@ EXTRAS = [
      "sha256_crypt__rounds": 1100},
     {"schemes": ["pbkdf2_sha256", "md5_crypt"], "deprecated": "md5_crypt", "admin__context__deprecated": "", "pbkdf2_sha256__rounds": 150,
      "all__vary_rounds": 0.1, "all__truncate_error": False},
+    # integer settings of individual schemes other than the cost (they travel through INI text as strings)
+    {"schemes": ["bcrypt_sha256", "md5_crypt"], "bcrypt_sha256__version": 1, "bcrypt_sha256__rounds": 4},
+    {"schemes": ["scrypt", "md5_crypt"], "scrypt__block_size": 2, "scrypt__parallelism": 2, "scrypt__rounds": 4, "deprecated": ["md5_crypt"]},
+    # vary_rounds at the top of its range (1.0 = 100%) and as a whole-number float
+    {"schemes": ["pbkdf2_sha256", "md5_crypt"], "pbkdf2_sha256__default_rounds": 200, "pbkdf2_sha256__vary_rounds": 1.0},
+    {"schemes": ["sha256_crypt"], "sha256_crypt__default_rounds": 2000, "sha256_crypt__max_rounds": 4000, "all__vary_rounds": "100%"},
 ]
 ROUTES = ("dict", "string", "path", "copy", "noop", "update")
 
